@@ -756,6 +756,8 @@ class Engine:
         if isinstance(a.ty, SeqTy) and isinstance(b.ty, SeqTy) and isinstance(op, ast.Add):
             return self.seq_app(a, b)
         if isinstance(a.ty, SetTy) and isinstance(op, (ast.BitOr, ast.BitAnd, ast.Sub)):
+            if isinstance(b.ty, SeqTy) and b.ty.elem == a.ty.elem:   # set - dict.keys() etc.
+                b = self.seq_to_set(self, b)
             a, b = self.unify(a, b)
             f = {ast.BitOr: "union", ast.BitAnd: "inter", ast.Sub: "diff"}[type(op)]
             return V(self.pre.setf(a.ty, f)(a.t, b.t), a.ty)  # type: ignore[arg-type]
@@ -1032,6 +1034,35 @@ class Engine:
         gen = n.generators[0]
         k = self.site()
         coll = self.expr(gen.iter, st)
+        if getattr(coll, "lit_elems", None) is not None:
+            # finitely many known elements: y in R  <=>  OR_k (filter_k and elt_k == y)
+            cases = []
+            ety2 = None
+            for ev in coll.lit_elems:
+                st2 = st.fork()
+                st2.old = st.old
+                st2.env.update(self.bind_target(gen.target, ev))
+                saved = self.pending_raises
+                self.pending_raises = []
+                conds = [self.truthy(self.expr(c, st2)) for c in gen.ifs]
+                st2.pc += conds
+                elt = self.expr(n.elt, st2)
+                if self.pending_raises and not self.mode_spec:
+                    self.pending_raises = saved
+                    raise Unsupported("possibly-raising expression inside a set comprehension", n)
+                self.pending_raises = saved
+                ety2 = elt.ty
+                cases.append((z3.And(*conds) if conds else z3.BoolVal(True), elt))
+            if ety2 is None:
+                raise Unsupported("set comprehension over an empty literal", n)
+            rty = SetTy(ety2)
+            R = self.fresh(f"scomp{k}", rty)
+            y = z3.Const(f"sy${k}", self.sort(ety2))
+            mem = self.pre.setf(rty, "mem")
+            self.assume(st, z3.ForAll([y], mem(R.t, y) == z3.Or(*[z3.And(c, e.t == y) for c, e in cases]), patterns=[mem(R.t, y)]))
+            for c, e in cases:
+                self.assume(st, z3.Implies(c, mem(R.t, e.t)))
+            return R
         if isinstance(coll.ty, SetTy):
             ety = coll.ty.elem
             x = z3.Const(f"sc${k}", self.sort(ety))
